@@ -200,7 +200,10 @@ REWRITE = {
              "(GenPipeline.v: buffer sizes, guards, process_record placement, batches, process_and_list) and proved to yield a permutation of `every example of every selected shard, processed once` for every decoder, shuffle size, "
              "thread count, random sequence and pool completion order; under a fixed LCG seed the generated compositions equal the real interfaces element by element. "
              "And for the depth-first shard list over nested lists (c02_iteration_yields_exactly_what_is_stored): after every history of the session model, unshuffled iteration of a split is a permutation of the contents of all shard files stored below it, i.e. (c02_every_history_delivers_exactly_what_was_written) of exactly the accepted writes of all sessions to that split. "
-             "PARTIAL: as_tfdataset and the Rust reader are not theorems; they are checked by whole-pipeline runs:")],
+             "RUST INTERFACE (c02_rust_interface_every_pass_exactly_once): every pass of a RustGenerator is the composition anr regenerated from _single_iter (shard-level shuffle, the shards' examples in path order - C15's theorem about parallel_map - , process_record), "
+             "and any number of generators advanced and dropped in any interleaving through the shared registry of live Rust iterators (Model/Registry.v) deliver to each consumer whole passes plus a prefix of the current one, every pass a permutation of the selected shards' examples, "
+             "provided the random registry keys never repeat; under a fixed LCG seed anr equals the real interface element by element. "
+             "PARTIAL: as_tfdataset and the Rust decoders are not theorems; they are checked by whole-pipeline runs:")],
     "C06": [("PARTIAL: that the library's sessions satisfy the discipline is not proved for all sessions; it is checked per run:",
              "SESSIONS (c06_every_history_publishes_in_order, c06_every_cut_is_closed): in the session model of C04 (fillers into any directory, multi-writer calls, the recursive merge; kernels regenerated from the source) "
              "the stored lists and shard files form publication logs stamped by one counter, and for every history that completes every list document ever published references only shard files (with the recorded digest) and child lists "
@@ -234,7 +237,7 @@ REWRITE = {
     "C03": [("PARTIAL: order across list files",
              "And (c03_unshuffled_interfaces_in_order) with shuffle=0 the three NumPy interfaces, as compositions regenerated from dataset_iteration.py, return exactly the examples of the selected shards in list order, "
              "independent of thread count, random sequences and pool completion order. And over whole histories (c03_session_block_in_order): whatever sessions precede and follow, the shards a filler session closed for a split appear contiguously, "
-             "in close order and with exactly the written examples, in the depth-first shard list of that split. PARTIAL: the order of a multi-writer call's directories, order across list files")],
+             "in close order and with exactly the written examples, in the depth-first shard list of that split. Every pass of the Rust interface likewise (c03_rust_pass_in_order). PARTIAL: the order of a multi-writer call's directories, order across list files")],
 }
 for _pid, _subs in REWRITE.items():
     for _old, _new in _subs:
